@@ -139,6 +139,7 @@ Record cfg := mkCfg {
   c_pool_stop_before_unload : bool; (* pool shutdown: workerStopper.Stop() (waits for running jobs) before unloadNodes() *)
   c_sched_checks_loaded : bool;    (* scheduleWorker drops a pending job whose shard is not in the pool's node map *)
   c_stream_checks_flag : bool;     (* node.canStream refuses a stream task while node.ss.streaming() *)
+  c_book_atomic : bool;            (* update/handleBatch: setApplied/setOnDiskIndex in the critical section of the Update call *)
   c_pool_blocks : list (string * list string)
                                    (* workerPool.canSchedule: task kind -> in-progress maps that keep it waiting *)
 }.
@@ -193,12 +194,14 @@ Record state := mkState {
   pool_ref : ref; pool_chk : bool;
   close_ready : bool;
   ss_streaming : bool; stream_done : bool;
-  pend : jobkind -> bool  (* snapshot requests dispatched by the apply worker and not yet scheduled:
+  pend : jobkind -> bool; (* snapshot requests dispatched by the apply worker and not yet scheduled:
                              node.ss.*Ready slots and workerPool.pending *)
+  dirty : bool;           (* ghost: the user state machine holds an update that s.index/s.onDiskIndex do not yet reflect *)
+  snap_bad : bool         (* ghost: a snapshot image was taken and labelled while [dirty] *)
 }.
 
 Definition init (nthreads : nat) : state :=
-  mkState (repeat idle_thread nthreads) false false 0 false 1 NotLoaded false NotLoaded false false false false (fun _ => false).
+  mkState (repeat idle_thread nthreads) false false 0 false 1 NotLoaded false NotLoaded false false false false (fun _ => false) false false.
 
 Definition holds_s (p : phase) : bool := match p with P0 => false | _ => true end.
 Definition holds_d (p : phase) : bool := match p with P0 | P1 => false | _ => true end.
@@ -253,15 +256,15 @@ Definition role_of (c : cfg) (i : nat) : role :=
 
 Definition set_thr (st : state) (l : list thread) : state :=
   mkState l (destroyed st) (closed st) (nclose st) (stopped st) (cnt st) (ap_ref st) (ap_chk st)
-          (pool_ref st) (pool_chk st) (close_ready st) (ss_streaming st) (stream_done st) (pend st).
+          (pool_ref st) (pool_chk st) (close_ready st) (ss_streaming st) (stream_done st) (pend st) (dirty st) (snap_bad st).
 
 (* decrement of the offload counter; reaching 0 hands the node to the close pool *)
 Definition offload (st : state) : state :=
   mkState (thr st) (destroyed st) (closed st) (nclose st) (stopped st) (pred (cnt st)) (ap_ref st) (ap_chk st)
-          (pool_ref st) (pool_chk st) (close_ready st || (pred (cnt st) =? 0)) (ss_streaming st) (stream_done st) (pend st).
+          (pool_ref st) (pool_chk st) (close_ready st || (pred (cnt st) =? 0)) (ss_streaming st) (stream_done st) (pend st) (dirty st) (snap_bad st).
 Definition load (st : state) : state :=
   mkState (thr st) (destroyed st) (closed st) (nclose st) (stopped st) (S (cnt st)) (ap_ref st) (ap_chk st)
-          (pool_ref st) (pool_chk st) (close_ready st) (ss_streaming st) (stream_done st) (pend st).
+          (pool_ref st) (pool_chk st) (close_ready st) (ss_streaming st) (stream_done st) (pend st) (dirty st) (snap_bad st).
 
 Definition job_conflict (new old : jobkind) : bool :=
   match new, old with
@@ -296,7 +299,7 @@ Definition count_busy (l : list thread) : nat := List.length (filter is_busy_t l
 
 Inductive action :=
 | AStop
-| AApLoad | AApIncr | AApCheck | AApStart (n : nat) | AApOffload | AApClearStream
+| AApLoad | AApIncr | AApCheck | AApStart (n : nat) | AApOffload | AApClearStream | AApBook
 | APoolLoad | APoolIncr | APoolCheck | APoolOffload | APoolShutdown
 | ADispatch (j : jobkind) | ADiscard (j : jobkind)
 | ASchedule (w : nat) (j : jobkind) | ACompleted (w : nat)
@@ -321,9 +324,9 @@ Definition thr_step (c : cfg) (st : state) (i : nat) : option state :=
       let st1 := setph P4 in
       match s_meth s with
       | MClose => Some (mkState (thr st1) (destroyed st1) true (S (nclose st1)) (stopped st1) (cnt st1) (ap_ref st1)
-                                (ap_chk st1) (pool_ref st1) (pool_chk st1) (close_ready st1) (ss_streaming st1) (stream_done st1) (pend st1))
+                                (ap_chk st1) (pool_ref st1) (pool_chk st1) (close_ready st1) (ss_streaming st1) (stream_done st1) (pend st1) (dirty st1) (snap_bad st1))
       | MSetDestroyed => Some (mkState (thr st1) true (closed st1) (nclose st1) (stopped st1) (cnt st1) (ap_ref st1)
-                                (ap_chk st1) (pool_ref st1) (pool_chk st1) (close_ready st1) (ss_streaming st1) (stream_done st1) (pend st1))
+                                (ap_chk st1) (pool_ref st1) (pool_chk st1) (close_ready st1) (ss_streaming st1) (stream_done st1) (pend st1) (dirty st1) (snap_bad st1))
       | _ => Some st1
       end
     | P4 => Some (setph P5)
@@ -331,14 +334,14 @@ Definition thr_step (c : cfg) (st : state) (i : nat) : option state :=
       let st1 := setph P6 in
       if s_post s
       then Some (mkState (thr st1) true (closed st1) (nclose st1) (stopped st1) (cnt st1) (ap_ref st1)
-                         (ap_chk st1) (pool_ref st1) (pool_chk st1) (close_ready st1) (ss_streaming st1) (stream_done st1) (pend st1))
+                         (ap_chk st1) (pool_ref st1) (pool_chk st1) (close_ready st1) (ss_streaming st1) (stream_done st1) (pend st1) (dirty st1) (snap_bad st1))
       else Some st1
     | P6 =>
       let st1 := set_thr st (upd i (mkThr rest P0 (t_busy t)) (thr st)) in
       match rest, t_busy t with
       | [], Some JStream =>   (* node.streamDone: streamCompleted set *)
         Some (mkState (thr st1) (destroyed st1) (closed st1) (nclose st1) (stopped st1) (cnt st1) (ap_ref st1)
-                      (ap_chk st1) (pool_ref st1) (pool_chk st1) (close_ready st1) (ss_streaming st1) true (pend st1))
+                      (ap_chk st1) (pool_ref st1) (pool_chk st1) (close_ready st1) (ss_streaming st1) true (pend st1) (dirty st1) (snap_bad st1))
       | _, _ => Some st1
       end
     end
@@ -346,10 +349,33 @@ Definition thr_step (c : cfg) (st : state) (i : nat) : option state :=
 
 Definition set_ap (st : state) (r : ref) (chk : bool) : state :=
   mkState (thr st) (destroyed st) (closed st) (nclose st) (stopped st) (cnt st) r chk
-          (pool_ref st) (pool_chk st) (close_ready st) (ss_streaming st) (stream_done st) (pend st).
+          (pool_ref st) (pool_chk st) (close_ready st) (ss_streaming st) (stream_done st) (pend st) (dirty st) (snap_bad st).
 Definition set_pool (st : state) (r : ref) : state :=
   mkState (thr st) (destroyed st) (closed st) (nclose st) (stopped st) (cnt st) (ap_ref st) (ap_chk st)
-          r false (close_ready st) (ss_streaming st) (stream_done st) (pend st).
+          r false (close_ready st) (ss_streaming st) (stream_done st) (pend st) (dirty st) (snap_bad st).
+
+Definition set_ghost (st : state) (d b : bool) : state :=
+  mkState (thr st) (destroyed st) (closed st) (nclose st) (stopped st) (cnt st) (ap_ref st) (ap_chk st)
+          (pool_ref st) (pool_chk st) (close_ready st) (ss_streaming st) (stream_done st) (pend st) d b.
+
+(* a site at which a snapshot image of the user state machine is taken together with its label
+   (SSMeta.Index / OnDiskIndex, read under the same hold of S): PrepareSnapshot, and the plain
+   state machine's SaveSnapshot *)
+Definition label_site (s : site) : bool :=
+  meth_eqb (s_meth s) MPrepare
+  || (meth_eqb (s_meth s) MSave && match s_smu s with LNone => false | _ => true end).
+
+(* ghost bookkeeping of a phase step of thread i (decided on the state BEFORE the step):
+   entering Update makes the state machine dirty; the post step of an Update site (still inside
+   the critical section) cleans it iff the source does the index bookkeeping there (GENERATED
+   fact); entering a label site while dirty is recorded *)
+Definition ghost_step (c : cfg) (st : state) (i : nat) (st1 : state) : state :=
+  match t_job (getT st i), t_ph (getT st i) with
+  | s :: _, P3 => set_ghost st1 (dirty st || meth_eqb (s_meth s) MUpdate)
+                            (snap_bad st || (label_site s && dirty st))
+  | s :: _, P5 => set_ghost st1 (dirty st && negb (meth_eqb (s_meth s) MUpdate && c_book_atomic c)) (snap_bad st)
+  | _, _ => st1
+  end.
 
 Definition ref_eqb (a b : ref) : bool :=
   match a, b with
@@ -362,7 +388,7 @@ Definition step (c : cfg) (st : state) (a : action) : option state :=
   | AStop =>
     if stopped st then None
     else Some (offload (mkState (thr st) (destroyed st) (closed st) (nclose st) true (cnt st) (ap_ref st) (ap_chk st)
-                                (pool_ref st) (pool_chk st) (close_ready st) (ss_streaming st) (stream_done st) (pend st)))
+                                (pool_ref st) (pool_chk st) (close_ready st) (ss_streaming st) (stream_done st) (pend st) (dirty st) (snap_bad st)))
   | AApLoad =>
     if negb (stopped st) && ref_eqb (ap_ref st) NotLoaded
     then Some (if c_load_atomic_engine c then load (set_ap st Loaded false) else set_ap st Seen false)
@@ -373,8 +399,14 @@ Definition step (c : cfg) (st : state) (a : action) : option state :=
     if ref_eqb (ap_ref st) Loaded && is_idle (getT st 0)
     then Some (set_ap st Loaded (if c_apply_checks_stopped c then negb (stopped st) else true))
     else None
+  | AApBook =>
+    (* only when the bookkeeping is NOT done in the critical section of Update: it happens
+       later, after the mutex was released and taken again *)
+    if negb (c_book_atomic c) && dirty st && is_idle (getT st 0)
+    then Some (set_ghost st false (snap_bad st))
+    else None
   | AApStart n =>
-    if ap_chk st && is_idle (getT st 0)
+    if ap_chk st && is_idle (getT st 0) && (c_book_atomic c || negb (dirty st))
     then match nth_error (apply_sites c) n with
          | Some s => Some (set_thr st (upd 0 (mkThr [s] P0 None) (thr st)))
          | None => None
@@ -387,7 +419,7 @@ Definition step (c : cfg) (st : state) (a : action) : option state :=
   | AApClearStream =>
     if ss_streaming st && stream_done st
     then Some (mkState (thr st) (destroyed st) (closed st) (nclose st) (stopped st) (cnt st) (ap_ref st) (ap_chk st)
-                       (pool_ref st) (pool_chk st) (close_ready st) false false (pend st))
+                       (pool_ref st) (pool_chk st) (close_ready st) false false (pend st) (dirty st) (snap_bad st))
     else None
   | APoolLoad =>
     if negb (stopped st) && ref_eqb (pool_ref st) NotLoaded
@@ -400,7 +432,7 @@ Definition step (c : cfg) (st : state) (a : action) : option state :=
     if ref_eqb (pool_ref st) Loaded
     then Some (mkState (thr st) (destroyed st) (closed st) (nclose st) (stopped st) (cnt st) (ap_ref st) (ap_chk st)
                        Loaded (if c_pool_rechecks c then negb (stopped st) else true)
-                       (close_ready st) (ss_streaming st) (stream_done st) (pend st))
+                       (close_ready st) (ss_streaming st) (stream_done st) (pend st) (dirty st) (snap_bad st))
     else None
   | APoolOffload =>
     if stopped st && ref_eqb (pool_ref st) Loaded then Some (offload (set_pool st Gone)) else None
@@ -417,7 +449,7 @@ Definition step (c : cfg) (st : state) (a : action) : option state :=
       let cnt' := cnt st - dec in
       Some (mkState (map clear_busy (thr st)) (destroyed st) (closed st) (nclose st) (stopped st) cnt'
                     (ap_ref st) (ap_chk st) Gone false
-                    (close_ready st || ((0 <? dec) && (cnt' =? 0))) (ss_streaming st) (stream_done st) (pend st))
+                    (close_ready st || ((0 <? dec) && (cnt' =? 0))) (ss_streaming st) (stream_done st) (pend st) (dirty st) (snap_bad st))
     else None
   | ADispatch j =>
     (* the apply worker, inside an iteration that saw the node not stopped, takes a snapshot task
@@ -428,14 +460,14 @@ Definition step (c : cfg) (st : state) (a : action) : option state :=
     then Some (mkState (thr st) (destroyed st) (closed st) (nclose st) (stopped st) (cnt st) (ap_ref st) (ap_chk st)
                        (pool_ref st) (pool_chk st) (close_ready st)
                        (match j with JStream => true | _ => ss_streaming st end) (stream_done st)
-                       (fun k => jk_eqb k j || pend st k))
+                       (fun k => jk_eqb k j || pend st k) (dirty st) (snap_bad st))
     else None
   | ADiscard j =>
     (* workerPool.scheduleWorker: a pending job whose shard is no longer in the pool's node map is dropped *)
     if pend st j && c_sched_checks_loaded c && negb (ref_eqb (pool_ref st) Loaded)
     then Some (mkState (thr st) (destroyed st) (closed st) (nclose st) (stopped st) (cnt st) (ap_ref st) (ap_chk st)
                        (pool_ref st) (pool_chk st) (close_ready st) (ss_streaming st) (stream_done st)
-                       (fun k => negb (jk_eqb k j) && pend st k))
+                       (fun k => negb (jk_eqb k j) && pend st k) (dirty st) (snap_bad st))
     else None
   | ASchedule w j =>
     (* a pending job gets a free worker. With the check of scheduleWorker (GENERATED fact) only when
@@ -451,7 +483,7 @@ Definition step (c : cfg) (st : state) (a : action) : option state :=
         let st1 := load (set_thr st (upd w (mkThr (job_sites c j) P0 (Some j)) (thr st))) in
         Some (mkState (thr st1) (destroyed st1) (closed st1) (nclose st1) (stopped st1) (cnt st1)
                       (ap_ref st1) (ap_chk st1) (pool_ref st1) (pool_chk st1) (close_ready st1)
-                      (ss_streaming st1) (stream_done st1) (fun k => negb (jk_eqb k j) && pend st k))
+                      (ss_streaming st1) (stream_done st1) (fun k => negb (jk_eqb k j) && pend st k) (dirty st) (snap_bad st))
       else None
     | _ => None
     end
@@ -477,11 +509,11 @@ Definition step (c : cfg) (st : state) (a : action) : option state :=
     if close_ready st && is_idle (getT st 1)
     then
       let st1 := mkState (thr st) (destroyed st) (closed st) (nclose st) (stopped st) (cnt st) (ap_ref st) (ap_chk st)
-                         (pool_ref st) (pool_chk st) false (ss_streaming st) (stream_done st) (pend st) in
+                         (pool_ref st) (pool_chk st) false (ss_streaming st) (stream_done st) (pend st) (dirty st) (snap_bad st) in
       if destroyed st then Some st1
       else Some (set_thr st1 (upd 1 (mkThr (close_sites c) P0 None) (thr st1)))
     else None
-  | AThr i => thr_step c st i
+  | AThr i => match thr_step c st i with Some st1 => Some (ghost_step c st i st1) | None => None end
   end.
 
 (* a disabled action leaves the state unchanged: every action list is a schedule *)
@@ -513,7 +545,8 @@ Definition gen_sites : list site := sites_of_table lock_table.
 Definition gen_cfg (k : kind) (nsnap : nat) : cfg :=
   mkCfg gen_sites k nsnap engine_load_inside_foreach pool_load_inside_foreach apply_checks_stopped
         pool_rechecks_before_schedule pool_stops_workers_before_unload
-        sched_checks_node_loaded can_stream_checks_streaming pool_blocks.
+        sched_checks_node_loaded can_stream_checks_streaming
+        apply_bookkeeping_in_update_section pool_blocks.
 
 (* ---- table conditions the positive theorems need (booleans, decided by computation) ---- *)
 Definition site_ok_core (s : site) : bool :=
